@@ -1,5 +1,6 @@
 """C13 — failsafe mode isolates failing locations."""
 import random
+import re
 
 import numpy as np
 
@@ -100,14 +101,15 @@ def run(tier, res, force_search=False):
                 procs = list(nprocs_all) if (tier != "quick" or boost) else [nprocs_all[nsub % 3]]
                 case = dict(what="user-defined/" + kind, kind=kind, nx=nx, ny=ny, To=To, Th=Th, Tf=Tf, dtype=str(np.dtype(dtype)),
                             S=[list(c) for c in S], markers=[marks[c] for c in S], nprocs=procs)
+                pcase = {**case, **G.pack(obs, hist, fut), **G.pack(obs0, hist0, fut0, "clean_")}  # self-contained replay
                 for failsafe in (True, False):
                     runs = [("serial", True, G.run_apply(deb, obs, hist, fut, failsafe=failsafe))]
                     runs += [(f"parallel/{p}", False, G.run_apply(deb, obs, hist, fut, parallel=True, nproc=p, failsafe=failsafe)) for p in procs]
                     for label, serial, r in runs:
                         if failsafe:
-                            check_failsafe_on(label, r, clean, set(S), cells, out_T, problems, case)
+                            check_failsafe_on(label, r, clean, set(S), cells, out_T, problems, pcase)
                         else:
-                            check_failsafe_off(label, r, clean, classes, serial, problems, case)
+                            check_failsafe_off(label, r, clean, classes, serial, problems, pcase)
                     res.count((kind, nx, ny, S, failsafe), len(S) > 0, sample={**case, "failsafe": failsafe, "serial": G.canon(runs[0][2])[:100]} if nsub in (4, 11) else None)
                     # model correspondence: serial exactly; parallel under a random completion schedule
                     lines.append(G.grid_line(kind, "serial", failsafe, obs, hist, fut, []))
@@ -179,14 +181,15 @@ def run(tier, res, force_search=False):
                 continue
             classes = [type(errs[c]).__name__ for c in cells if c in errs]
             raising_seen.setdefault(name, set()).update(f"{type(e).__name__}: {str(e)[:50]}" for e in errs.values())
+            pcase = {**case, **G.pack(obs, hist, fut), **G.pack(obs0, hist0, fut0, "clean_")}
             for failsafe in (True, False):
                 runs = [("serial", True, G.run_apply(deb, obs, hist, fut, failsafe=failsafe))]
                 runs += [(f"parallel/{p}", False, G.run_apply(deb, obs, hist, fut, parallel=True, nproc=p, failsafe=failsafe)) for p in procs]
                 for label, serial, r in runs:
                     if failsafe:
-                        check_failsafe_on(f"{name} {label}", r, clean, set(S), cells, fut.shape[0], problems, case)
+                        check_failsafe_on(f"{name} {label}", r, clean, set(S), cells, fut.shape[0], problems, pcase)
                     else:
-                        check_failsafe_off(f"{name} {label}", r, clean, classes, serial, problems, case)
+                        check_failsafe_off(f"{name} {label}", r, clean, classes, serial, problems, pcase)
                 res.count((name, nx, ny, S, failsafe, where, str(bad)), len(S) > 0,
                           sample={**case, "failsafe": failsafe, "exception": classes[:1]} if len(S) == 1 and failsafe else None)
     res.extra["builtin_failures_observed"] = {k: sorted(v)[:3] for k, v in raising_seen.items()}
@@ -195,8 +198,8 @@ def run(tier, res, force_search=False):
     # ---- verdict
     seen = set()
     for p, case in problems:
-        key = (p.split(":")[0][:50], case.get("what"))
-        if key in seen:
+        key = (re.sub(r"[0-9]+", "#", p)[:60], case.get("what"))
+        if key in seen or len(seen) >= 6:
             continue
         seen.add(key)
         res.violations.append((p, {"property": PROP, "failing_input": case, "problem": p, "signature": {"what": case.get("what")}}))
@@ -204,3 +207,41 @@ def run(tier, res, force_search=False):
         res.violations.append(("proof obligation / correspondence no longer checks: " + "; ".join(res.tie_broken)[:600],
                                {"property": PROP, "failing_input": None, "broken": res.tie_broken, "mismatches": mismatches[:5]}))
     return res
+
+
+def replay(data):
+    """re-run the failing input of a replay file against the real code; exit 1 iff the violation reproduces"""
+    fi = data.get("failing_input")
+    if not fi or "obs" not in fi or "clean_obs" not in fi:
+        print("replay: no failing input recorded (a proof obligation / the correspondence broke):", str(data.get("broken"))[:300])
+        return 2
+    obs, hist, fut = G.unpack(fi)
+    obs0, hist0, fut0 = G.unpack(fi, "clean_")
+    deb = G.debiaser_for(fi)
+    nx, ny = fi["nx"], fi["ny"]
+    cells = [(i, j) for i in range(nx) for j in range(ny)]
+    S = [tuple(c) for c in fi["S"]]
+    out_T = obs.shape[0] if fi.get("kind") == "dc" else fut.shape[0]
+    clean_r = G.run_apply(deb, obs0, hist0, fut0)
+    if clean_r[0] != "ok":
+        print("REPRODUCED: the clean run raises", clean_r[1:])
+        return 1
+    _, errs = G.stacked(deb, obs, hist, fut, out_T, fut.dtype)
+    classes = [type(errs[c]).__name__ for c in cells if c in errs]
+    if set(errs) != set(S):
+        print(f"note: cells that raise on their own: {sorted(errs)}; recorded S: {sorted(S)}")
+    problems = []
+    case = {k: v for k, v in fi.items() if not k.endswith(("obs", "hist", "fut"))}
+    for failsafe in (True, False):
+        runs = [("serial", True, G.run_apply(deb, obs, hist, fut, failsafe=failsafe))]
+        runs += [(f"parallel/{p}", False, G.run_apply(deb, obs, hist, fut, parallel=True, nproc=p, failsafe=failsafe)) for p in fi.get("nprocs") or [2]]
+        for label, serial, r in runs:
+            if failsafe:
+                check_failsafe_on(label, r, clean_r[1], set(errs), cells, out_T, problems, case)
+            else:
+                check_failsafe_off(label, r, clean_r[1], classes, serial, problems, case)
+    for p, _ in problems:
+        print("REPRODUCED:", p)
+    if not problems:
+        print("not reproduced: the property holds on this input")
+    return 1 if problems else 0
